@@ -94,6 +94,10 @@ def _count_nonzero(eng, args, kwargs):
             npmodels._len_eq(eng, a.items[0], x, "rows of a 2-D array")
         out = [_count_nonzero(eng, [x], {}) for x in a.items]
         return NArr((len(out),), out, "int")
+    if isinstance(a, PList) and a.items is not None and not a.items and axis is not None:
+        if axis in (0, -1):
+            return 0
+        raise ProgExc(ValueError, f"axis {axis} is out of bounds for array of dimension 1")  # numpy.exceptions.AxisError
     if axis is not None:
         raise Unsupported("np.count_nonzero with an axis")
     if isinstance(a, SArr):
@@ -198,6 +202,41 @@ def _concatenate(eng, args, kwargs):
     return SArr(npmodels.lam(body, k), tot, k, name="concat")
 
 
+# ------------------------------------------------------------------ getattr / callable on interpreted objects
+def _getattr(eng, args, kwargs):
+    from .values import Obj, Opaque
+
+    obj, name = args[0], args[1]
+    if not isinstance(name, str):
+        raise Unsupported("getattr with a non-constant attribute name")
+    if isinstance(obj, (Obj, Opaque)):
+        try:
+            return eng.getattr_(obj, name)
+        except ProgExc as e:
+            if e.cls is AttributeError and len(args) > 2:
+                return args[2]
+            raise
+    if len(args) > 2:
+        return models.wrap_native(getattr(obj, name, args[2]))
+    try:
+        return models.wrap_native(getattr(obj, name))
+    except AttributeError as e:
+        raise ProgExc(AttributeError, str(e))
+
+
+def _callable(eng, args, kwargs):
+    from .values import Bound, Callback, Func, NativeMethod, Obj
+
+    v = args[0]
+    if isinstance(v, (Func, Bound, NativeMethod, Callback)):
+        return True
+    if isinstance(v, (Sym, SArr, NArr, PList)) or v is None:
+        return False
+    if isinstance(v, Obj):
+        return eng.find_method(v.cls, "__call__") is not None
+    return callable(v)
+
+
 def install():
     models.EXTRA_MODELS[np.logical_and] = _logical("logical_and", z3.And, lambda e, x, y: e.and_(x, y))
     models.EXTRA_MODELS[np.logical_or] = _logical("logical_or", z3.Or, lambda e, x, y: e.or_(x, y))
@@ -207,3 +246,5 @@ def install():
     models.EXTRA_MODELS[np.full] = _full
     models.EXTRA_MODELS[np.zeros] = _zeros
     models.EXTRA_MODELS[np.concatenate] = _concatenate
+    models.EXTRA_MODELS[getattr] = _getattr
+    models.EXTRA_MODELS[callable] = _callable
